@@ -1,6 +1,6 @@
 //go:build verif
 
-package group
+package group_test
 
 // C11 (histories half), unit hist_group: explicit-state search over operation
 // histories on a pool of element and scalar slots of the four groups, stepped
@@ -11,12 +11,16 @@ package group
 // and in-package the curve parameter objects) are re-read and compared with
 // constants taken from the reference.
 //
-// In-package because the state key contains the observed alias graph (pointer
-// identity of the big.Int coordinates / scalar buffers between slots and with
-// the curve parameters), which is what makes merging histories sound.
+// Exported API only (external test package, so that a refactoring of unexported
+// names cannot stop this file from building). The state key contains the observed
+// alias graph - the addresses of every pointer / slice backing array reachable from
+// a slot object, found by a name-agnostic reflection walk, compared between slots and
+// with the curve parameter objects (reached through the exported curve constructors) -
+// which is what makes merging histories sound.
 
 import (
 	"bytes"
+	"crypto/elliptic"
 	"crypto/sha256"
 	"encoding/hex"
 	"fmt"
@@ -30,6 +34,8 @@ import (
 	"testing"
 	"unsafe"
 
+	"github.com/cloudflare/circl/ecc/p384"
+	"github.com/cloudflare/circl/group"
 	"github.com/cloudflare/circl/internal/verifmc"
 	"github.com/cloudflare/circl/internal/verifref/c11model"
 )
@@ -46,13 +52,15 @@ type c11Snap struct {
 }
 
 type c11Sys struct {
-	name string
-	g    Group
-	m    *c11model.Group
-	nist bool
-	snap c11Snap
-	ops  []c11model.Op
-	genP *c11model.Point
+	name   string
+	g      group.Group
+	cv     elliptic.Curve   // the curve whose Params() the NIST group uses (nil for ristretto255)
+	static map[uintptr]bool // addresses reachable from every fresh object (shared infrastructure, not slot storage)
+	m      *c11model.Group
+	nist   bool
+	snap   c11Snap
+	ops    []c11model.Op
+	genP   *c11model.Point
 
 	obsMu    sync.Mutex
 	observed map[[16]byte]bool
@@ -61,28 +69,118 @@ type c11Sys struct {
 }
 
 func c11Systems() []*c11Sys {
-	mk := func(g Group, m *c11model.Group) *c11Sys {
-		s := &c11Sys{name: m.Name, g: g, m: m, ops: c11model.Alphabet(c11NE, c11NS), observed: map[[16]byte]bool{}}
-		if w, ok := g.(wG); ok {
+	mk := func(g group.Group, m *c11model.Group, cv elliptic.Curve) *c11Sys {
+		s := &c11Sys{name: m.Name, g: g, m: m, cv: cv, ops: c11model.Alphabet(c11NE, c11NS), observed: map[[16]byte]bool{}}
+		if cv != nil {
 			s.nist = true
-			p := w.c.Params()
+			p := cv.Params()
 			cp := func(x *big.Int) *big.Int { return new(big.Int).Set(x) }
 			s.snap = c11Snap{cp(p.P), cp(p.N), cp(p.B), cp(p.Gx), cp(p.Gy), p.BitSize, p.Name}
 		}
 		s.genP = m.PointOf(big.NewInt(1))
+		// addresses common to independently created fresh objects are shared infrastructure
+		s.static = map[uintptr]bool{}
+		a, b := c11Reach(g.NewElement()), c11Reach(g.Identity())
+		for _, x := range a[1:] {
+			for _, y := range b[1:] {
+				if x == y {
+					s.static[x] = true
+				}
+			}
+		}
+		a, b = c11Reach(g.NewScalar()), c11Reach(g.NewScalar())
+		for _, x := range a[1:] {
+			for _, y := range b[1:] {
+				if x == y {
+					s.static[x] = true
+				}
+			}
+		}
 		return s
 	}
-	return []*c11Sys{mk(P256, c11model.P256), mk(P384, c11model.P384), mk(P521, c11model.P521), mk(Ristretto255, c11model.Ristretto255)}
+	// group.P384 is built on circl's own ecc/p384 curve, P-256 / P-521 on crypto/elliptic
+	return []*c11Sys{mk(group.P256, c11model.P256, elliptic.P256()), mk(group.P384, c11model.P384, p384.P384()),
+		mk(group.P521, c11model.P521, elliptic.P521()), mk(group.Ristretto255, c11model.Ristretto255, nil)}
+}
+
+// c11Reach lists, in a fixed order, the address of obj's pointee and of every pointer target and
+// slice backing array reachable from it through struct fields, pointers, arrays and slices.
+// Interface-typed fields are not followed (they hold shared curve objects, not slot storage).
+// No field is named: the walk works for any layout of the element / scalar types.
+func c11Reach(obj interface{}) []uintptr {
+	out := make([]uintptr, 0, 8)
+	var seenArr [16]uintptr
+	seenL := seenArr[:0]
+	isSeen := func(a uintptr) bool {
+		for _, x := range seenL {
+			if x == a {
+				return true
+			}
+		}
+		return false
+	}
+	var walk func(v reflect.Value, depth int)
+	walk = func(v reflect.Value, depth int) {
+		if depth > 6 {
+			return
+		}
+		switch v.Kind() {
+		case reflect.Ptr:
+			if v.IsNil() {
+				return
+			}
+			a := v.Pointer()
+			out = append(out, a) // listed every time it is reached: one object reached twice IS the aliasing looked for
+			if isSeen(a) {
+				return
+			}
+			seenL = append(seenL, a)
+			walk(v.Elem(), depth+1)
+		case reflect.Struct:
+			for i := 0; i < v.NumField(); i++ {
+				walk(v.Field(i), depth+1)
+			}
+		case reflect.Slice:
+			if v.IsNil() || v.Cap() == 0 {
+				return
+			}
+			a := v.Pointer()
+			out = append(out, a)
+			if isSeen(a) {
+				return
+			}
+			seenL = append(seenL, a)
+			switch v.Type().Elem().Kind() {
+			case reflect.Ptr, reflect.Struct, reflect.Slice, reflect.Array:
+				for i := 0; i < v.Len(); i++ {
+					walk(v.Index(i), depth+1)
+				}
+			}
+		case reflect.Array:
+			switch v.Type().Elem().Kind() {
+			case reflect.Ptr, reflect.Struct, reflect.Slice, reflect.Array:
+				for i := 0; i < v.Len(); i++ {
+					walk(v.Index(i), depth+1)
+				}
+			}
+		}
+	}
+	v := reflect.ValueOf(obj)
+	if !v.IsValid() || v.Kind() != reflect.Ptr || v.IsNil() {
+		return []uintptr{0}
+	}
+	walk(v, 0)
+	return out
 }
 
 // c11Real is the pool of real objects.
 type c11Real struct {
-	E []Element
-	S []Scalar
+	E []group.Element
+	S []group.Scalar
 }
 
 func (s *c11Sys) fresh() *c11Real {
-	r := &c11Real{E: make([]Element, c11NE), S: make([]Scalar, c11NS)}
+	r := &c11Real{E: make([]group.Element, c11NE), S: make([]group.Scalar, c11NS)}
 	for i := range r.E {
 		r.E[i] = s.g.NewElement()
 	}
@@ -221,59 +319,46 @@ func (s *c11Sys) apply(r *c11Real, st c11model.State, op c11model.Op) (probs []c
 	return probs
 }
 
-// rawElement reads the value of a real element without calling the code under test
-// (NIST: the coordinates; ristretto255: the canonical bytes of a copy of the point).
-func (s *c11Sys) rawElement(e Element) (x, y *big.Int, enc []byte, ok bool) {
-	switch v := e.(type) {
-	case *wElt:
-		if v == nil || v.x == nil || v.y == nil {
-			return nil, nil, nil, false
-		}
-		return v.x, v.y, nil, true
-	case *ristrettoElement:
-		if v == nil {
-			return nil, nil, nil, false
-		}
-		q := v.p
-		return nil, nil, q.Bytes(), true
+// encElement / encScalar read the value of a real object through MarshalBinary (a panic, e.g. of
+// crypto/elliptic on a point that is not on the curve, is reported as an unusable slot).
+func (s *c11Sys) encElement(e group.Element) (enc []byte, ok bool) {
+	if e == nil {
+		return nil, false
 	}
-	return nil, nil, nil, false
+	var err error
+	if p, _ := verifmc.Try(func() { enc, err = e.MarshalBinary() }); p || err != nil {
+		return nil, false
+	}
+	return enc, true
 }
 
-func (s *c11Sys) rawScalar(sc Scalar) ([]byte, bool) {
-	switch v := sc.(type) {
-	case *wScl:
-		if v == nil {
-			return nil, false
-		}
-		return append([]byte{}, v.k...), true
-	case *ristrettoScalar:
-		if v == nil {
-			return nil, false
-		}
-		q := v.s
-		return append([]byte{}, q.Bytes()...), true
+func (s *c11Sys) encScalar(sc group.Scalar) ([]byte, bool) {
+	if sc == nil {
+		return nil, false
 	}
-	return nil, false
+	var enc []byte
+	var err error
+	if p, _ := verifmc.Try(func() { enc, err = sc.MarshalBinary() }); p || err != nil {
+		return nil, false
+	}
+	return enc, true
 }
 
 // compareSlots compares every slot with the model state.
 func (s *c11Sys) compareSlots(r *c11Real, st c11model.State) (probs []c11Problem) {
 	for i, e := range r.E {
 		want := s.m.PointOf(st.E[i])
-		x, y, enc, ok := s.rawElement(e)
+		enc, ok := s.encElement(e)
 		switch {
 		case !ok:
-			probs = append(probs, c11Problem{"slot-diverged", fmt.Sprintf("element slot e%d is nil/unusable", i)})
-		case s.nist && (x.Cmp(want.X) != 0 || y.Cmp(want.Y) != 0):
-			probs = append(probs, c11Problem{"slot-diverged", fmt.Sprintf("element slot e%d = (%s, %s), model value [%s]G = (%s, %s)", i, x.Text(16), y.Text(16), st.E[i].Text(16), want.X.Text(16), want.Y.Text(16))})
-		case !s.nist && !bytes.Equal(enc, want.Enc):
+			probs = append(probs, c11Problem{"slot-diverged", fmt.Sprintf("element slot e%d is nil/unusable (MarshalBinary fails or panics), model value [%s]G = %x", i, st.E[i].Text(16), want.Enc)})
+		case !bytes.Equal(enc, want.Enc):
 			probs = append(probs, c11Problem{"slot-diverged", fmt.Sprintf("element slot e%d = %x, model value [%s]G = %x", i, enc, st.E[i].Text(16), want.Enc)})
 		}
 	}
 	for i, sc := range r.S {
 		want := s.m.ScalarEnc(st.S[i])
-		got, ok := s.rawScalar(sc)
+		got, ok := s.encScalar(sc)
 		if !ok || !bytes.Equal(got, want) {
 			probs = append(probs, c11Problem{"slot-diverged", fmt.Sprintf("scalar slot s%d = %x, model value %x", i, got, want)})
 		}
@@ -288,9 +373,9 @@ func (s *c11Sys) checkGlobals() (probs []c11Problem) {
 	bad := func(what string, format string, a ...interface{}) {
 		probs = append(probs, c11Problem{"global-corrupted:" + what, fmt.Sprintf(format, a...)})
 	}
-	// in-package: the curve parameter objects themselves
+	// the curve parameter objects themselves (reached through the exported curve constructors)
 	if s.nist {
-		p := s.g.(wG).c.Params()
+		p := s.cv.Params()
 		for _, f := range []struct {
 			n    string
 			cur  *big.Int
@@ -307,16 +392,13 @@ func (s *c11Sys) checkGlobals() (probs []c11Problem) {
 		}
 	}
 	one := s.genP
-	chkE := func(what string, e Element, want *c11model.Point) {
-		x, y, enc, ok := s.rawElement(e)
+	chkE := func(what string, e group.Element, want *c11model.Point) {
+		enc, ok := s.encElement(e)
 		if !ok {
 			bad(what, "%s() returned an unusable element", what)
 			return
 		}
-		if s.nist && (x.Cmp(want.X) != 0 || y.Cmp(want.Y) != 0) {
-			bad(what, "%s() now returns (%s, %s), want (%s, %s)", what, x.Text(16), y.Text(16), want.X.Text(16), want.Y.Text(16))
-		}
-		if !s.nist && !bytes.Equal(enc, want.Enc) {
+		if !bytes.Equal(enc, want.Enc) {
 			bad(what, "%s() now returns %x, want %x", what, enc, want.Enc)
 		}
 	}
@@ -324,13 +406,13 @@ func (s *c11Sys) checkGlobals() (probs []c11Problem) {
 	chkE("Generator", s.g.Generator(), one)
 	chkE("Identity", s.g.Identity(), zero)
 	chkE("NewElement", s.g.NewElement(), zero)
-	if got, ok := s.rawScalar(s.g.NewScalar()); !ok || !bytes.Equal(got, s.m.ScalarEnc(new(big.Int))) {
+	if got, ok := s.encScalar(s.g.NewScalar()); !ok || !bytes.Equal(got, s.m.ScalarEnc(new(big.Int))) {
 		bad("NewScalar", "NewScalar() now returns %x", got)
 	}
 	pp := s.g.Params()
-	wantP := Params{uint(1 + 2*s.m.ByteLen), uint(1 + s.m.ByteLen), uint(s.m.ByteLen)}
+	wantP := group.Params{ElementLength: uint(1 + 2*s.m.ByteLen), CompressedElementLength: uint(1 + s.m.ByteLen), ScalarLength: uint(s.m.ByteLen)}
 	if !s.nist {
-		wantP = Params{32, 32, 32}
+		wantP = group.Params{ElementLength: 32, CompressedElementLength: 32, ScalarLength: 32}
 	}
 	if pp == nil || *pp != wantP {
 		bad("Params", "Params() now returns %+v, want %+v", pp, wantP)
@@ -351,7 +433,7 @@ func (s *c11Sys) globalCells() []uintptr {
 	if !s.nist {
 		return nil
 	}
-	p := s.g.(wG).c.Params()
+	p := s.cv.Params()
 	var out []uintptr
 	for _, x := range []*big.Int{p.Gx, p.Gy, p.P, p.N, p.B} {
 		out = append(out, uintptr(unsafe.Pointer(x)), c11BigBacking(x))
@@ -361,36 +443,21 @@ func (s *c11Sys) globalCells() []uintptr {
 
 // slotCells returns, per slot, the addresses of the storage the slot's value lives in.
 func (s *c11Sys) slotCells(r *c11Real) (ec [][]uintptr, sc [][]uintptr) {
-	for _, e := range r.E {
-		switch v := e.(type) {
-		case *wElt:
-			c := []uintptr{uintptr(unsafe.Pointer(v)), 0, 0, 0, 0}
-			if v != nil && v.x != nil {
-				c[1], c[2] = uintptr(unsafe.Pointer(v.x)), c11BigBacking(v.x)
+	cells := func(obj interface{}) []uintptr {
+		c := c11Reach(obj)
+		out := c[:0:0]
+		for i, a := range c {
+			if i == 0 || !s.static[a] {
+				out = append(out, a)
 			}
-			if v != nil && v.y != nil {
-				c[3], c[4] = uintptr(unsafe.Pointer(v.y)), c11BigBacking(v.y)
-			}
-			ec = append(ec, c)
-		case *ristrettoElement:
-			ec = append(ec, []uintptr{uintptr(unsafe.Pointer(v))})
-		default:
-			ec = append(ec, []uintptr{0})
 		}
+		return out
+	}
+	for _, e := range r.E {
+		ec = append(ec, cells(e))
 	}
 	for _, x := range r.S {
-		switch v := x.(type) {
-		case *wScl:
-			c := []uintptr{uintptr(unsafe.Pointer(v)), 0}
-			if v != nil && cap(v.k) > 0 {
-				c[1] = uintptr(unsafe.Pointer(&v.k[:1][0]))
-			}
-			sc = append(sc, c)
-		case *ristrettoScalar:
-			sc = append(sc, []uintptr{uintptr(unsafe.Pointer(v))})
-		default:
-			sc = append(sc, []uintptr{0})
-		}
+		sc = append(sc, cells(x))
 	}
 	return ec, sc
 }
@@ -715,7 +782,7 @@ func TestVerifC11_hist_group(t *testing.T) {
 	c11RefCheck(t, nil) // a wrong reference is a broken check, never an alarm
 	r.Set("alphabet_size", len(systems[0].ops))
 	r.Set("slots", map[string]int{"elements": c11NE, "scalars": c11NS})
-	if !c11NoPointers(reflect.TypeOf(ristrettoElement{})) || !c11NoPointers(reflect.TypeOf(ristrettoScalar{})) {
+	if !c11NoPointers(reflect.TypeOf(group.Ristretto255.NewElement()).Elem()) || !c11NoPointers(reflect.TypeOf(group.Ristretto255.NewScalar()).Elem()) {
 		r.NotExhaustive("ristretto255 element/scalar types contain pointers: their alias graph is not part of the state key")
 	}
 	col := &c11Collector{m: map[string]*c11Viol{}, n: map[string]int{}}
